@@ -10,24 +10,29 @@ ASSUME = ['schedules are explored at lock-operation granularity (a thread switch
           'events are emitted by harness-side wrappers at method exit; between the state change and the wrapper no lock is '
           'acquired, so the event is atomic with the change under this scheduler',
           'TLC results are exhaustive only within the stated constants; schedules are seeded random walks']
-CONSTS = {'UndoAgents': '{"u"}', 'Conn': '{"c1", "c2", "c3", "u"}', 'Oid': '{"x", "y"}', 'MaxCommits': 999, 'MaxCloses': 999, 'MutIgnoreILtid': 'FALSE'}
+CONSTS = {'WithRC': 'TRUE', 'UndoAgents': '{"u"}', 'Conn': '{"c1", "c2", "c3", "u"}', 'Oid': '{"x", "y"}', 'MaxCommits': 999, 'MaxCloses': 999, 'MutIgnoreILtid': 'FALSE'}
 
 
 def _mc(ctx, quick):
     cfg = os.path.join(ctx.scratch, 'zmvcc.cfg')
     tlc.write_cfg(cfg, constants={'Conn': '{"c1", "c2"}', 'Oid': '{"x", "y"}', 'MaxCommits': 3 if quick else 4,
-                                  'MaxCloses': 2, 'MutIgnoreILtid': 'FALSE', 'UndoAgents': '{}'},
+                                  'MaxCloses': 2, 'MutIgnoreILtid': 'FALSE', 'UndoAgents': '{}', 'WithRC': 'FALSE'},
                   invariants=['CacheCoherent', 'Fresh', 'NotFromTheFuture', 'VotedOnCurrent', 'LockDiscipline'])
     ctx.model_check('ZMvcc', cfg, name='ZMvcc-2conn', timeout=1800)
     cfgu = os.path.join(ctx.scratch, 'zmvcc-undo.cfg')
     tlc.write_cfg(cfgu, constants={'Conn': '{"c1", "c2", "u"}', 'Oid': '{"x", "y"}', 'MaxCommits': 2 if quick else 3,
-                                   'MaxCloses': 0 if quick else 1, 'MutIgnoreILtid': 'FALSE', 'UndoAgents': '{"u"}'},
+                                   'MaxCloses': 0 if quick else 1, 'MutIgnoreILtid': 'FALSE', 'UndoAgents': '{"u"}', 'WithRC': 'FALSE'},
                   invariants=['CacheCoherent', 'Fresh', 'NotFromTheFuture', 'VotedOnCurrent', 'LockDiscipline'])
     ctx.model_check('ZMvcc', cfgu, name='ZMvcc-with-undo', timeout=1800)
+    cfgr = os.path.join(ctx.scratch, 'zmvcc-rc.cfg')
+    tlc.write_cfg(cfgr, constants={'Conn': '{"c1", "c2"}', 'Oid': '{"x", "y"}', 'MaxCommits': 2 if quick else 3,
+                                   'MaxCloses': 0, 'MutIgnoreILtid': 'FALSE', 'UndoAgents': '{}', 'WithRC': 'TRUE'},
+                  invariants=['CacheCoherent', 'VotedOnCurrent', 'LockDiscipline'])
+    ctx.model_check('ZMvcc', cfgr, name='ZMvcc-readCurrent', timeout=1800)
     # vacuity / sensitivity: the specification rejects the known-bad design (snapshot := polled tid only)
     cfg2 = os.path.join(ctx.scratch, 'zmvcc-mut.cfg')
     tlc.write_cfg(cfg2, constants={'Conn': '{"c1", "c2"}', 'Oid': '{"x", "y"}', 'MaxCommits': 3, 'MaxCloses': 1,
-                                   'MutIgnoreILtid': 'TRUE', 'UndoAgents': '{}'}, invariants=['CacheCoherent'])
+                                   'MutIgnoreILtid': 'TRUE', 'UndoAgents': '{}', 'WithRC': 'FALSE'}, invariants=['CacheCoherent'])
     ctx.model_check('ZMvcc', cfg2, name='ZMvcc-mutant', expect_violation='CacheCoherent', timeout=600)
 
 
